@@ -155,6 +155,22 @@ def rejected_objects(fmt, rng):
     from iodata.orbitals import MolecularOrbitals
 
     out = []
+    # every format: objects whose derived properties (spinpol, nelec, charge) raise or are undefined when the pre-flight
+    # code reads them - generalized orbitals, orbitals without occupations.  Whatever the format makes of them, only the
+    # documented outcomes are admitted (written, PrepareDumpError, DumpError).
+    if fmt not in ("fchk", "molden", "molekel", "wfn", "wfx"):
+        for label, mo in (("generalized orbitals attached", MolecularOrbitals("generalized", None, None, np.array([1.0, 0.0]),
+                                                                               rng.normal(size=(6, 2)), np.array([-1.0, 0.5]))),
+                          ("orbitals without occupations attached", MolecularOrbitals("restricted", 2, 2))):
+            d, _ = go.make(fmt, rng)
+            try:
+                d.charge = None
+                d.nelec = None
+                d.spinpol = None
+                d.mo = mo
+            except Exception:
+                continue
+            out.append((label, d, "returned", "returned"))
     if fmt == "json_qcschema":
         d, _ = go.make(fmt, rng)
         d.extra = {k: v for k, v in d.extra.items() if k != "schema_name"}
